@@ -6,6 +6,7 @@ import PdshVerif.Dshbak.CompressLemmas
 import PdshVerif.Dshbak.SpecLemmas
 import PdshVerif.Dshbak.HeaderExpands
 import PdshVerif.Dshbak.Rechunk
+import PdshVerif.Dshbak.HostNames
 
 /-!
 # C19  dshbak regroups output losslessly; its host headers mean what pdsh means
@@ -48,6 +49,15 @@ theorem lines_preserved (rep : Bool) (ls : List (Str × Bool)) (t : Str) :
 blanks before the colon, with or without the separating blank) -/
 theorem match_formatted (rep : Bool) (r : FRec) (h : r.WF) :
     matchLine rep (r.line, true) = some (r.tag, r.body) := matchLine_formatted rep r h
+
+/-- the converse: a line contributes to the report ONLY if it has that shape — blanks, a non-empty
+run of non-blanks (the label), blanks, a colon; its body is what follows the colon minus one
+optional blank.  Together with `match_formatted`: dshbak attributes a line to a host exactly when
+the line is a labelled line, and every other line is ignored (never mixed into a host's output). -/
+theorem match_only_labelled (rep : Bool) (l t b : Str) (h : matchLine rep (l, true) = some (t, b)) :
+    ∃ lead mid rest, l = lead ++ (t ++ (mid ++ ':' :: rest)) ∧ b = dropOneSpace rest ∧ t ≠ [] ∧
+      (∀ c ∈ lead, isSpace c = true) ∧ (∀ c ∈ t, isSpace c = false) ∧ (∀ c ∈ mid, isSpace c = true) :=
+  matchLine_some h
 
 /-- a text made of newline-terminated lines is cut into exactly those lines -/
 theorem input_is_its_lines (ls : List Str) (h : ∀ l ∈ ls, '\n' ∉ l) :
@@ -213,6 +223,46 @@ theorem header_expands (cfg : PdshVerif.Hostlist.Cfg) (m : Nat) (hm : 0 < m)
     ∃ h, PdshVerif.Hostlist.create cfg (renderHeader gs) = .ok h ∧ h.Good ∧ h.hosts.Perm g :=
   create_header cfg m hm hm16 mr g hd hsize gs hgs
 
+/-- HEADER_PARSES_BACK.  The same with the well-formedness hypothesis as an explicit DECIDABLE
+predicate on host names, `hostNameOK` (Dshbak/HostNames.lean): non-empty, at most 1000 bytes, no
+white space and no `:` (so dshbak's tag regex reads the name as one tag), no `,` `[` `]` (so the
+parser reads it as one word), number part below 2^64-1.  For every group of distinct such names the
+header text dshbak prints, read by the hostlist parser model of C01 (`Hostlist.create`, any variant
+of hostlist.c), denotes exactly the MULTISET of hosts of the group. -/
+theorem header_parses_back (cfg : PdshVerif.Hostlist.Cfg) (m : Nat) (hm : 0 < m)
+    (hm16 : m ≤ PdshVerif.Hostlist.Spec.RANGE_LIMIT) (mr : Option Nat) (g : List Str)
+    (hnd : g.Nodup) (hnames : ∀ t ∈ g, hostNameOK t = true)
+    (hsize : g.length ≤ PdshVerif.Hostlist.Spec.RANGES_LIMIT ∨
+      ∃ k, mr = some k ∧ 0 < k ∧ k ≤ PdshVerif.Hostlist.Spec.RANGES_LIMIT)
+    (gs : List (List Elem)) (hgs : gs.Perm (compressV (some m) mr true g)) :
+    ∃ h, PdshVerif.Hostlist.create cfg (renderHeader gs) = .ok h ∧ h.Good ∧ h.hosts.Perm g :=
+  header_expands cfg m hm hm16 mr g (headerDom_of_names g hnd hnames) hsize gs hgs
+
+/-- END TO END for the -c report: for every input whose labelled lines carry labels in the domain
+(`hostNameOK`), every header of the report — in whatever order Perl enumerates its hashes — is
+parsed back by the hostlist parser model into exactly the hosts whose output it heads -/
+theorem report_headers_parse_back (cfg : PdshVerif.Hostlist.Cfg) (m : Nat) (hm : 0 < m)
+    (hm16 : m ≤ PdshVerif.Hostlist.Spec.RANGE_LIMIT) (mr : Option Nat)
+    (rep : Bool) (ls : List InLine) (h : ∀ l ∈ ls, l.WF)
+    (hlab : ∀ r, InLine.labelled r ∈ ls → hostNameOK r.tag = true)
+    (ks : List Str) (hks : ks.Perm (keys (table rep ls)))
+    (b : List Str × List Str) (hb : b ∈ coalesce ks (table rep ls))
+    (hsize : b.1.length ≤ PdshVerif.Hostlist.Spec.RANGES_LIMIT ∨
+      ∃ k, mr = some k ∧ 0 < k ∧ k ≤ PdshVerif.Hostlist.Spec.RANGES_LIMIT)
+    (gs : List (List Elem)) (hgs : gs.Perm (compressV (some m) mr true b.1)) :
+    ∃ hl, PdshVerif.Hostlist.create cfg (renderHeader gs) = .ok hl ∧ hl.hosts.Perm b.1 ∧
+      ∀ t ∈ b.1, Spec.linesOf (recsOf ls) t = b.2 := by
+  have sp := coalesce_spec rep ls h ks hks
+  have hsub : b.1.Sublist ((coalesce ks (table rep ls)).flatMap Prod.fst) := by
+    rw [List.flatMap_def]
+    exact List.sublist_flatten_of_mem (List.mem_map.mpr ⟨b, hb, rfl⟩)
+  have hnames : ∀ t ∈ b.1, hostNameOK t = true := by
+    intro t ht
+    obtain ⟨r, hr, rfl⟩ := label_is_record (sp.only t (hsub.subset ht))
+    exact hlab r hr
+  obtain ⟨hl, h1, _, h3⟩ := header_parses_back cfg m hm hm16 mr b.1 (hsub.nodup sp.once) hnames hsize gs hgs
+  exact ⟨hl, h1, h3, sp.lines b hb⟩
+
 /-- ... and therefore the whole -c report of the repaired script, with every header TEXT read by the
 parser model, satisfies the specification (every host under exactly one header, merged iff
 identical, each body once, each header standing for exactly its hosts) -/
@@ -289,6 +339,23 @@ example : hostsOf (compressGroups none (strSort ["n08-ib".toList, "n09-ib".toLis
 
 example : HeaderDom (["n08-ib", "n09-ib", "n10-ib", "foo", "0", "7"].map String.toList) :=
   ⟨by decide, by decide, by decide⟩
+
+/-- a non-trivial group meets the decidable hypothesis of `header_parses_back`: mixed zero padding
+across 09/10, a numeric-only name, name `0`, a suffix after the number, digits inside the prefix, a
+digit-free name -/
+example : (["n08-ib", "n09-ib", "n10-ib", "r2d007", "r2d8", "0", "42", "login", "x.y_z-1"].map
+    String.toList).all hostNameOK = true := by decide
+
+example : (["n08-ib", "n09-ib", "n10-ib", "r2d007", "r2d8", "0", "42", "login", "x.y_z-1"].map
+    String.toList).Nodup := by decide
+
+example : renderHeader (compressV (some 16384) (some 10240) true
+    (strSort (["n08-ib", "n09-ib", "n10-ib", "r2d007", "r2d8", "0", "42", "login", "x.y_z-1"].map
+      String.toList))) = "login,[0,42],r2d[007,8],x.y_z-1,n[08-10]-ib".toList := by decide
+
+/-- names outside the domain: a blank, a colon, a comma, a bracket, the empty name -/
+example : (["a b", "a:b", "a,b", "n[1]", ""].map String.toList).all (fun t => !hostNameOK t) = true := by
+  decide
 
 /-- F19-MANYRANGES in miniature (2 elements per bracket instead of 10240) -/
 theorem manyranges_witness :
